@@ -32,6 +32,11 @@ class FuncInfo:
         defaults = [None] * (len(pos) - len(a.defaults)) + list(a.defaults)
         return pos, defaults, (a.vararg.arg if a.vararg else None), (a.kwarg.arg if a.kwarg else None)
 
+    def kwonly(self):
+        """[(name, default expr or None)] of the keyword-only parameters"""
+        a = self.node.args
+        return [(x.arg, d) for x, d in zip(a.kwonlyargs, a.kw_defaults)]
+
     def body(self):
         if isinstance(self.node, ast.Lambda):
             return [ast.Return(value=self.node.body)]
